@@ -22,8 +22,11 @@ Definition keyatom (v : pyval) : Prop :=
   | VFloat b => String.length b = 8
   | _ => False
   end.
-Definition path_cls (c : string) : bool := nocolon c && has_dot c && String.prefix "pathlib." c.
-Definition obj_cls (c : string) : bool := nocolon c && has_dot c && negb (String.prefix "pathlib." c).
+Definition path_cls (c : string) : bool := nocolon c && has_dot c && starts "pathlib." c.
+Definition obj_cls (c : string) : bool :=
+  nocolon c && has_dot c && negb (starts "pathlib." c) && negb (starts "numpy" c).
+(* module + class name of a numpy array / scalar, as bytes_repr_numpy writes it: "numpyndarray", "numpyfloat64" *)
+Definition nd_cls (c : string) : bool := nocolon c && starts "numpy" c.
 
 Definition local_ok (v : pyval) : Prop :=
   match v with
@@ -33,11 +36,18 @@ Definition local_ok (v : pyval) : Prop :=
   | VList _ _ | VTuple _ _ | VSet _ _ | VFrozenset _ _ => True
   | VDict _ kvs => Forall keyatom (map fst kvs)
   | VObj _ c _ => obj_cls c = true
-  | _ => False          (* numpy arrays, functions, types, cyclic references: not covered by this theorem *)
+  | VNd _ c dt _ _ => nd_cls c = true /\ nocolon dt = true
+  | _ => False          (* object arrays, functions, types, cyclic references: not covered by this theorem *)
   end.
 
 Inductive inj_dom : pyval -> Prop :=
 | id_intro v : local_ok v -> (forall x, In x (subs v) -> inj_dom x) -> inj_dom v.
+
+Lemma pathlib_not_numpy : forall c, starts "pathlib." c = true -> starts "numpy" c = false.
+Proof.
+  intros [|a c] Hp; [discriminate Hp|]. cbn [starts] in Hp |- *.
+  destruct (Ascii.eqb_spec "p" a) as [<-|]; [reflexivity|discriminate Hp].
+Qed.
 
 (* ------------------------------------------------------------------ dict keys: prefix-free and injective *)
 Ltac peel E := cbn in E; try discriminate E; try (injection E as E).
@@ -166,6 +176,7 @@ Section Inj.
     match v with
     | VNone => 1 | VBool _ => 2 | VInt _ => 3 | VFloat _ => 4 | VStr _ => 5 | VBytes _ => 6 | VPath _ _ => 7
     | VList _ _ => 8 | VTuple _ _ => 9 | VSet _ _ => 10 | VFrozenset _ _ => 11 | VDict _ _ => 12 | VObj _ _ _ => 13
+    | VNd _ _ _ _ _ => 14
     | _ => 0
     end.
 
@@ -178,18 +189,30 @@ Section Inj.
       else if String.eqb t "str" then 5 else if String.eqb t "bytes" then 6 else if String.eqb t "list" then 8
       else if String.eqb t "tuple" then 9 else if String.eqb t "set" then 10 else if String.eqb t "frozenset" then 11
       else if String.eqb t "dict" then 12
-      else if String.prefix "pathlib." t then 7 else 13
+      else if starts "numpy" t then 14
+      else if starts "pathlib." t then 7 else 13
     end.
 
-  Lemma classify_dotted : forall c r, nocolon c = true -> has_dot c = true ->
-      classify (c ++ String ":" r) = if String.prefix "pathlib." c then 7 else 13.
+  Lemma classify_dotted : forall c r, nocolon c = true -> has_dot c = true -> starts "numpy" c = false ->
+      classify (c ++ String ":" r) = if starts "pathlib." c then 7 else 13.
   Proof.
-    intros c r Hn Hd. unfold classify. rewrite (after_app c r Hn), (tok_app c r Hn).
+    intros c r Hn Hd Hnp. unfold classify. rewrite (after_app c r Hn), (tok_app c r Hn).
     repeat match goal with
            | |- context [String.eqb c ?lit] =>
              destruct (String.eqb_spec c lit) as [->|_]; [cbn in Hd; discriminate Hd|]
            end.
-    reflexivity.
+    now rewrite Hnp.
+  Qed.
+
+  Lemma classify_nd : forall c r, nocolon c = true -> starts "numpy" c = true ->
+      classify (c ++ String ":" r) = 14.
+  Proof.
+    intros c r Hn Hp. unfold classify. rewrite (after_app c r Hn), (tok_app c r Hn).
+    repeat match goal with
+           | |- context [String.eqb c ?lit] =>
+             destruct (String.eqb_spec c lit) as [->|_]; [vm_compute in Hp; discriminate Hp|]
+           end.
+    now rewrite Hp.
   Qed.
 
   Lemma classify_repr : forall f v s u, local_ok v -> repr (dig H f) v tt = Ok (s, u) -> classify s = code v.
@@ -204,7 +227,8 @@ Section Inj.
     - inversion E. reflexivity.
     - inversion E. reflexivity.
     - inversion E. unfold path_cls in Hok. apply andb_true_iff in Hok. destruct Hok as [Hok Hp].
-      apply andb_true_iff in Hok. destruct Hok as [Hn Hd]. rewrite classify_dotted; auto. now rewrite Hp.
+      apply andb_true_iff in Hok. destruct Hok as [Hn Hd]. rewrite classify_dotted; auto; [now rewrite Hp|].
+      now apply pathlib_not_numpy.
     - destruct (seq_contents (dig H f) l tt) as [[b' ?]|]; [|discriminate]. inversion E. reflexivity.
     - destruct (seq_contents (dig H f) l tt) as [[b' ?]|]; [|discriminate]. inversion E. reflexivity.
     - destruct (sorted_res vlt l) as [sl|]; [|discriminate].
@@ -213,9 +237,12 @@ Section Inj.
       destruct (seq_contents (dig H f) sl tt) as [[b' ?]|]; [|discriminate]. inversion E. reflexivity.
     - destruct (mapping (dig H f) kvs tt) as [[b' ?]|]; [|discriminate]. inversion E. reflexivity.
     - destruct (mapping (dig H f) _ tt) as [[b' ?]|]; [|discriminate]. inversion E.
-      unfold obj_cls in Hok. apply andb_true_iff in Hok. destruct Hok as [Hok Hp].
-      apply andb_true_iff in Hok. destruct Hok as [Hn Hd]. cbn. rewrite classify_dotted; auto.
-      apply negb_true_iff in Hp. now rewrite Hp.
+      unfold obj_cls in Hok. apply andb_true_iff in Hok. destruct Hok as [Hok Hnp].
+      apply andb_true_iff in Hok. destruct Hok as [Hok Hp].
+      apply andb_true_iff in Hok. destruct Hok as [Hn Hd]. apply negb_true_iff in Hp, Hnp. cbn. rewrite classify_dotted; auto.
+      now rewrite Hp.
+    - inversion E. destruct Hok as [Hc Hdt]. unfold nd_cls in Hc. apply andb_true_iff in Hc. destruct Hc as [Hn Hp].
+      now apply classify_nd.
   Qed.
 
   (* ---------------------------------------------------------------- small list facts *)
@@ -460,6 +487,7 @@ Section Main.
       destruct (mapping (dig H f2) (map g ats2) tt) as [[b2 []]|] eqn:Q2; [|discriminate].
       inversion R1 as [E1]. inversion R2 as [E2]. rewrite <- E2 in E1.
       unfold obj_cls in L1, L2. apply andb_true_iff in L1, L2. destruct L1 as [L1 _], L2 as [L2 _].
+      apply andb_true_iff in L1, L2. destruct L1 as [L1 _], L2 as [L2 _].
       apply andb_true_iff in L1, L2. destruct L1 as [N1 _], L2 as [N2 _].
       apply colon_split_inj in E1; auto. destruct E1 as [-> E1].
       cbn in E1. injection E1 as E1.
@@ -487,6 +515,15 @@ Section Main.
           assert (Hx' : In x (map g ats1)) by (eapply Permutation_in; [symmetry; exact P1|exact Hx]).
           apply in_map_iff in Hx'. destruct Hx' as (a & <- & Ha). exists a. split; auto.
           cbn in Hk, Hv. inversion Hk as [Hn]. now rewrite Hn, String.eqb_refl, Hv.
+    - (* VNd *)
+      cbn in R1, R2. inversion R1 as [E1]. inversion R2 as [E2]. rewrite <- E2 in E1.
+      destruct L1 as [C1 T1], L2 as [C2 T2]. unfold nd_cls in C1, C2. apply andb_true_iff in C1, C2.
+      destruct C1 as [N1 _], C2 as [N2 _].
+      apply colon_split_inj in E1; auto. destruct E1 as [-> E1].
+      apply colon_split_inj in E1; auto. destruct E1 as [-> E1].
+      apply colon_split_inj in E1; try apply shape_repr_nocolon. destruct E1 as [Es ->].
+      apply shape_repr_inj in Es. subst sh2. left. cbn. rewrite !String.eqb_refl. cbn.
+      rewrite (proj2 (list_eqb_spec Nat.eqb Nat.eqb_eq sh1 sh1) eq_refl). reflexivity.
   Qed.
 
   (* the statement on whole values: digest = dig with fuel 1 + depth *)
